@@ -33,6 +33,7 @@ ASSUMPTIONS = [
     'optimizers needing absent libraries (polychord, dypolychord) and plugin components (ace, BHMie) cannot be discovered here and are not judged',
     'CLI differential: taurex.taurex.main() run in-process with -i -o -S on files the harness wrote (pickle cross-sections, pickle CIA); spectrum compared with the same components built through the library, rtol 1e-9',
 ]
+RULE = RULE + ' ' + 'Also: composite tempscalar+<base> selectors with drawn scale factor and zero-valued keys, mis-cased contribution sections, [Binning] sections for the program run, the file temperature (and pressure) profile with its documented keys, numbers written with a capital E or a leading plus; cases stratified by part and variant.'
 REQUIRED = {'cli-binning:manual': 0.04, 'negative:miscased-contribution': 0.012, 'mixin-zero-valued-key': 0.012, 'two-mixins': 0.006, 'zero-valued-key': 0.05, 'part:sections': 0.12, 'part:cli': 0.06, 'part:selectors': 0.002, 'part:retrieval': 0.06, 'part:cli-retrieval': 0.03, 'negative': 0.05}
 # coverage-guided extra (thorough tier): pure-Python taurex modules on this property's path, instrumented by atheris
 FUZZ = {'include': ['taurex.parameter', 'taurex.util.util'], 'runs': 6000, 'workers': 4}
